@@ -40,6 +40,12 @@ var scenarios = map[string]*Scenario{}
 func register(s *Scenario) { scenarios[s.Name] = s }
 
 func main() {
+	// helper modes: this binary re-executed as a fresh process by a scenario
+	switch os.Getenv("VERIF_CHILD") {
+	case "c19load":
+		c19ChildLoad()
+		return
+	}
 	name := flag.String("s", "", "scenario name")
 	seed := flag.Int64("seed", 1, "VERIF_SEED")
 	from := flag.Int("from", 0, "first case index")
